@@ -502,7 +502,7 @@ class ProgGen:
         n = r.randint(0, 5)
         k = r.choice(['rec', 'counter', 'hof', 'loop', 'shadow', 'quote', 'qq', 'eval', 'variadic', 'setdeep', 'twoclos', 'letseq',
                       'nil1', 'nil2', 'nil3', 'nil4', 'mset', 'mset2', 'msetclo', 'recshadow', 'laterdef', 'evaldef', 'casesym', 'casesym',
-                      'emptylet', 'variadic2'])
+                      'emptylet', 'variadic2', 'letseq2', 'laterdo'])
         f, g, x, y = self.fresh(), self.fresh(), r.choice(self.names), r.choice(self.names)
         if k == 'casesym':
             # clause keys are data: a key that happens to be the name of a variable in scope (at any distance) still
@@ -531,6 +531,14 @@ class ProgGen:
             return [['define', x, n], ['quasiquote', [1, ['unquote', x], ['unquote-splice', ['list', x, 2]], 'z']]]
         if k == 'eval':
             return [['define', x, n], ['eval', ['quote', ['+', x, 1]]], ['let', [[x, 10]], ['eval', ['quote', ['*', x, 2]]]]]
+        if k == 'letseq2':
+            # the initial values of a let see the earlier variables of the same let, also when the name exists further out
+            return [['define', x, 0], ['define', g, ['fn', [], ['let', [[x, 1], [x + 'y', ['+', x, 10]]], x + 'y']]], [g],
+                    ['let', [[y + 'o', 2]], ['let', [[x, n], [x + 'c', ['fn', [], x]]], [x + 'c']]], x]
+        if k == 'laterdo':
+            # a name defined further down in the same do block is the one a closure written above it means
+            return [['define', g, 5], ['let', [[x + 'z', 1]], ['do', ['define', f, ['fn', [], [g]]], ['define', g, ['fn', [], n]], [f]]],
+                    [['fn', [], ['do', ['define', f, ['fn', [], [g, 1]]], ['define', g, ['fn', [x], ['+', x, n]]], [f]]]], g]
         if k == 'emptylet':
             # a let without bindings is still a scope of its own: it sees the directly enclosing binding, and what it defines ends with it
             return [['define', x, 1], ['let', [[x, 2]], ['let', [], x]], ['let', [], ['define', f, n], ['+', f, x]], ['define', f, 5],
